@@ -557,7 +557,7 @@ class C01(PropertyCheck):
             n_random, maxlen, exh_len = 700, 6, 2
         elif tier == "thorough":
             triples = [["1", "1", "1"], ["2", "2", "2"], ["1/2", "1", "3/2"], ["3", "1/4", "2"]]
-            n_random, maxlen, exh_len = 20000, 10, 3
+            n_random, maxlen, exh_len = 12000, 10, 3
         else:  # search
             triples = [["1", "1", "1"], ["2", "2", "2"], ["1/2", "1", "3/2"], ["3", "1/4", "2"], ["1", "4", "1/2"]]
             n_random, maxlen, exh_len = 30000, 10, 3
